@@ -154,12 +154,14 @@ def env_schedules(ctx, sub, module, cfg, limit, timeout=900):
     return scheds
 
 
-def env_replay(ctx, sub, envmodule, envcfg, limit, hdrs, test, tracemodule, tracecfg, label, reps=1, perturb=False, sig=None, timeout=3000, extra_args=None, silent=False):
+def env_replay(ctx, sub, envmodule, envcfg, limit, hdrs, test, tracemodule, tracecfg, label, reps=1, perturb=False, sig=None, timeout=3000, extra_args=None, silent=False, conv=None):
     """TLC-generated environment schedules (env_schedules) x scenario headers, replayed by a bubble test (VH_SCHED) and
     judged by the trace spec"""
     scheds = env_schedules(ctx, sub, envmodule, envcfg, limit)
     sf = ctx.path("sched-%s-%s.json" % (envmodule, envcfg.replace(".cfg", "")))
-    json.dump([dict(h, steps=s) for s in scheds for h in hdrs], open(sf, "w"))
+    if conv is None:
+        conv = lambda h, s: dict(h, steps=s)
+    json.dump([conv(h, s) for s in scheds for h in hdrs], open(sf, "w"))
     args = {"sched": sf, "reps": reps}
     args.update(extra_args or {})
     return bubble_tv(ctx, test, sub, tracemodule, tracecfg, "%s tlc-schedules %s%s" % (label, envcfg.replace(".cfg", ""), " perturbed" if perturb else ""), args,
